@@ -92,6 +92,32 @@ def verify(targets=None, props=None, tier='quick', timeout=None, verbose=False, 
             import traceback
             rep.status = 'crash'
             rep.reason = traceback.format_exc()
+    # lemmas (proved by induction; a contract that `uses` one assumes its statement)
+    from . import lemmas as lemmod
+    for lname in sorted(reg.lemmas):
+        lem = reg.lemmas[lname]
+        tname = 'lemma:' + lname
+        if targets and not any(tname == t or tname.startswith(t) for t in targets):
+            continue
+        if props and not (set(props) & set(lem.props)):
+            continue
+        rep = FuncReport(tname, 'LEMMA.' + lname)
+        rep.props = list(lem.props)
+        rep.sha = None
+        rep.location = (os.path.relpath(lem.file, ROOT), lem.lineno, lem.lineno)
+        reports.append(rep)
+        try:
+            ex3 = Executor(reg, program)
+            rep.obligations = lemmod.obligations(ex3, lem)
+            rep.paths = 1
+            rep.entry_pc = None
+        except OutOfSubset as e:
+            rep.status = 'out_of_subset'
+            rep.reason = str(e)
+        except Exception:
+            import traceback
+            rep.status = 'crash'
+            rep.reason = traceback.format_exc()
     # solve
     tasks = []
     tmo = timeout or (10 if tier == 'quick' else 40)
